@@ -21,6 +21,8 @@ def PyExc.name : PyExc → String
   | .constructSoft => "ConstructError"
   | .constructExplicit => "ExplicitError"
 
+deriving instance DecidableEq for Except
+
 /-- Python `bytes`: every element is an octet. -/
 def Octets (bs : List Nat) : Prop := ∀ b ∈ bs, b < 256
 
